@@ -95,6 +95,12 @@ M("C05", "C05.support", _D, "            elif self.operator == \"__sub__\":\n   
 M("C05", "C05.support", _D, "            if l is None or r is None:\n                return None, None\n            if self.operator == \"__neg__\":", "            if self.operator == \"__neg__\":", "c05-neg-none")
 M("C05", "C05.support", _GE, "@distributionFunction(support=_hypotSupport)\ndef hypot(*args) -> float:", "@monotonicDistributionFunction\ndef hypot(*args) -> float:", "c05-hypot-monotonic")
 M("C05", "C05.names", _V, "        bx, by, bz = other.x, other.y, other.z", "        bx, by, ba = other.x, other.y, other.z", "c05-cross-typo")
+M("C05", "C05.support", _D, "            if self.operator == \"__neg__\":\n                return -r, -l", "            if self.operator == \"__neg__\":\n                return -l, -r", "c05-neg-unswapped")
+M("C05", "C05.support", _D, "                    return 0, max(-l, r)", "                    return 0, max(l, r)", "c05-abs-straddle")
+M("C05", "C05.support", _D, "                if r < 0:\n                    return -r, -l", "                if l < 0:\n                    return -r, -l", "c05-abs-wrong-sign-test")
+M("C05", "C05.support", _D, "                    r = r1 / l2 if r1 >= 0 else r1 / r2", "                    r = r1 / l2", "c05-div-upper-unsigned")
+M("C05", "C05.support", _D, "                if l2 > 0:\n                    l = l1 / r2", "                if l2 >= 0:\n                    l = l1 / r2", "c05-div-zero-divisor")
+RF("C05", _D, "                if l2 > 0:\n                    l = l1 / r2 if l1 >= 0 else l1 / l2\n                    r = r1 / l2 if r1 >= 0 else r1 / r2\n                else:\n                    l, r = None, None  # TODO improve", "                if l2 <= 0:\n                    return None, None\n                if l1 < 0:\n                    l = l1 / l2\n                else:\n                    l = l1 / r2\n                r = r1 / l2 if 0 <= r1 else r1 / r2", "c05-rf-div-restructured")
 RF("C05", _D, "            elif self.operator == \"__sub__\":\n                l = l1 - r2\n                r = r1 - l2", "            elif self.operator == \"__sub__\":\n                l = -r2 + l1\n                r = -l2 + r1", "c05-rf-sub-commuted")
 
 # ---------------------------------------------------------------- C06
